@@ -62,11 +62,11 @@ PROPS = {
     ),
     'C17': dict(
         level='proof',
-        units=['path:buffer::PushBuffer::*', 'nameglob:INPUT.*', 'nameglob:OUTPUT.*'],
-        explanation='PushBuffer<T>: representation invariant wf() and abstract view live() (oldest first); push/push_force/pop/flush/get/get_mut/copy/peek verified against the bounded-sequence operations for both kinds; '
+        units=['path:buffer::PushBuffer::*', 'path:buffer::PushBufferIterator::*', 'nameglob:INPUT.*', 'nameglob:OUTPUT.*'],
+        explanation='PushBuffer<T>: representation invariant wf() and abstract view live() (oldest first); push/push_force/pop/flush/get/get_mut/copy/peek/iter/next verified against the bounded-sequence operations for both kinds; '
                     'INPUT.*/OUTPUT.* rows on top of it',
         not_decided=['printing (to_string uses format!/trim): outside Verus; the known slot-order defect of PushBuffer::to_string is therefore not decided here',
-                     'iteration: `impl Iterator for PushBufferIterator` is ignored (vstd attaches iterator-law obligations to every Iterator impl); no caller in the crate'],
+                     'size_hint() of the iterator (not part of the statement)'],
         assumptions=['capacity in 1..2^30 (index arithmetic goes through i32)'],
     ),
     'C09': dict(
